@@ -624,7 +624,7 @@ static int cmd_exec(int argc, char **argv) {
   long v = sim_shared->aux[3];
   printf("X class=%s fate=%s verdict=%s func=%s mode=%c hash=%016llx detail=%s\n", vc ? vc : "ok", fate_names[cr.fate], v >= 0 && v < VD_N ? vd_names[v] : "?", eng_top_lib_frame[0] ? eng_top_lib_frame : "-", mode,
          (unsigned long long)sim_shared->result_hash, buf);
-  unlink(errpath);
+  if (!getenv("M4SIM_KEEP_STDERR")) unlink(errpath);
   return 0;
 }
 
